@@ -438,6 +438,17 @@ def parse_tool(repo, name, rel):
                 j += 1
             if s.v[b1 + 1] != ";": raise Problem("%s: parameter list %s not terminated" % (rel, s.v[i + 3]))
             parmlists[s.v[i + 3]] = items; i = b1 + 2; continue
+        # ---- const std::vector<const char*> XXX = { items } ;   (a named list usable as alias list or parameter list)
+        if i + 12 < len(s.v) and s.v[i:i + 9] == ["const", "std", "::", "vector", "<", "const", "char", "*", ">"] and s.k[i + 9] == "id" and s.v[i + 10:i + 12] == ["=", "{"]:
+            b0 = i + 11; b1 = s.match[b0]; items = []
+            for j in range(b0 + 1, b1):
+                if s.k[j] == "str": items.append(unq(s.v[j]))
+                elif s.k[j] == "id":
+                    if s.v[j] not in consts: raise Problem("%s: list %s has an unknown item `%s`" % (rel, s.v[i + 9], s.v[j]))
+                    items.append(consts[s.v[j]])
+                elif s.v[j] != ",": raise Problem("%s: list %s has an unexpected item `%s`" % (rel, s.v[i + 9], s.v[j]))
+            if s.v[b1 + 1] != ";": raise Problem("%s: list %s not terminated" % (rel, s.v[i + 9]))
+            parmlists[s.v[i + 9]] = items; i = b1 + 2; continue
         # ---- CommandLine cmd(argc,argv[,usage]);
         if s.v[i:i + 2] == ["const", "CommandLine"] and s.v[i + 2] == "cmd" and s.v[i + 3] == "(":
             b1 = s.match[i + 3]
@@ -469,7 +480,7 @@ def parse_tool(repo, name, rel):
                 i = e + 1; continue
         # ---- option block
         if s.v[i:i + 9] == ["if", "(", "char", "*", "*", "opt_parms", "=", "cmd", "."] and s.v[i + 9:i + 11] == ["option", "("]:
-            a0 = i + 10; a1 = s.match[a0]
+            a0 = i + 10; a1 = s.match[a0]; alias_var = None
             if s.match[i + 1] != a1 + 1: raise Problem("%s: option block condition not of the expected shape" % rel)
             if s.v[a0 + 1] == "{":
                 l1 = s.match[a0 + 1]; aliases = []
@@ -479,6 +490,8 @@ def parse_tool(repo, name, rel):
                 multi = True; j = l1 + 1
             elif s.k[a0 + 1] == "str":
                 aliases = [unq(s.v[a0 + 1])]; multi = False; j = a0 + 2
+            elif s.k[a0 + 1] == "id" and s.v[a0 + 1] in parmlists and s.v[a0 + 2] == ",":
+                aliases = list(parmlists[s.v[a0 + 1]]); multi = True; j = a0 + 2; alias_var = s.v[a0 + 1]     # option(const Strings&,const Strings&)
             else:
                 raise Problem("%s: option name is neither a literal nor a brace list: `%s`" % (rel, s.txt(a0, a1)))
             if not (s.v[j] == "," and s.k[j + 1] == "id" and j + 2 == a1):
@@ -520,6 +533,25 @@ def parse_tool(repo, name, rel):
                 if inter:
                     if variant: raise Problem("%s: option %s: more than one alias subset in the body" % (rel, aliases[0]))
                     variant = bl
+            # variant selected by position in the alias list:  std::find(L.begin()+N,L.end(),V)!=L.end()  with V = opt_parms[0]
+            for q in range(b0, b1 - 3):
+                if s.v[q:q + 4] == ["std", "::", "find", "("]:
+                    e = s.match[q + 3]; toks = s.v[q + 4:e]
+                    m2 = None
+                    if alias_var is not None and len(toks) >= 13 and toks[:5] == [alias_var, ".", "begin", "(", ")"]:
+                        rest = toks[5:]
+                        n0 = 0
+                        if rest[:1] == ["+"] and rest[1].isdigit(): n0 = int(rest[1]); rest = rest[2:]
+                        if rest[:7] == [",", alias_var, ".", "end", "(", ")", ","] and len(rest) == 8 and s.v[e + 1:e + 7] == ["!=", alias_var, ".", "end", "(", ")"]:
+                            m2 = (n0, rest[7])
+                    if m2 is None:
+                        if set(toks) & ({alias_var} if alias_var else set()) or any(u["k"] == 0 for u in bs.uses):
+                            raise Problem("%s: option %s: std::find over the alias list in an unrecognised form `%s`" % (rel, aliases[0], " ".join(toks)))
+                        continue
+                    if not any(u["k"] == 0 and u["sink"] == m2[1] for u in bs.uses):
+                        raise Problem("%s: option %s: `%s` searched in the alias list is not opt_parms[0]" % (rel, aliases[0], m2[1]))
+                    if variant: raise Problem("%s: option %s: more than one alias subset in the body" % (rel, aliases[0]))
+                    variant = aliases[m2[0]:]
             if variant and not any(u["k"] == 0 for u in bs.uses):
                 raise Problem("%s: option %s: alias subset without a read of opt_parms[0]" % (rel, aliases[0]))
             tool["blocks"].append(dict(aliases=aliases, multi=multi, parms=parms, uses=bs.uses, variant=variant, geos=geos))
